@@ -36,12 +36,31 @@ instance : ToUsize Float where
   toUsize? x :=
     if x > -1.0 && x < 18446744073709551616.0 then some x.toUInt64.toNat else none
 
+/-- a finite `Float` as `(negative, M, E)` with value `± M · 2^E` (from the IEEE-754 bits) -/
+def floatDecode (f : Float) : Bool × Nat × Int :=
+  let b := f.toBits.toNat
+  let neg := b >>> 63 == 1
+  let e := (b >>> 52) % 2048
+  let m := b % (2 ^ 52)
+  if e == 0 then (neg, m, -1074) else (neg, m + 2 ^ 52, (e : Int) - 1075)
+
+/-- C `fmod` (Rust's `%` on `f64`), computed exactly on the decoded operands: the result is
+    `a - trunc(a/p)·p`, which is always representable, with the sign of `a`. -/
+def floatFmod (a p : Float) : Float :=
+  if a.isNaN || p.isNaN || a.isInf || p == 0.0 then 0.0 / 0.0
+  else if p.isInf then a
+  else
+    let (na, ma, ea) := floatDecode a
+    let (_, mp, ep) := floatDecode p
+    let e0 := if ea ≤ ep then ea else ep
+    let r := (ma * 2 ^ (ea - e0).toNat) % (mp * 2 ^ (ep - e0).toNat)
+    let v := (Float.ofNat r).scaleB e0
+    if na then -v else v
+
 instance : RemEuclid Float where
   remEuclid a p :=
     -- Rust: `let r = self % rhs; if r < 0.0 { r + rhs.abs() } else { r }`  (`%` = C `fmod`)
-    let q := a / p
-    let t := if q < 0.0 then q.ceil else q.floor
-    let r := a - t * p
+    let r := floatFmod a p
     if r < 0.0 then r + p.abs else r
 
 instance : NatCast Float := ⟨Float.ofNat⟩
